@@ -201,6 +201,14 @@ class _Sym:
     def untag(self, x, tag):
         return unwrap(Val(x.ty.alt_ty(tag), x.ty.get(tag, x.t)))
 
+    # uninterpreted spec functions with an executable definition on the CONC side
+    def uf(self, name: str, ret: Ty, *args):
+        vals = [wrap(x) for x in args]
+        key = (name, tuple(v.ty.name for v in vals), ret.name)
+        if key not in _UFS:
+            _UFS[key] = z3.Function(name, *[v.ty.sort() for v in vals], ret.sort())
+        return unwrap(Val(ret, _UFS[key](*[v.t for v in vals])))
+
     # spec functions
     def cnt(self, mask, j):
         return f_cnt(mask.ty.arr(mask.t), j)
@@ -221,9 +229,19 @@ class _Sym:
         return z3.If(a <= b, a, b)
 
 
+_UFS: dict = {}
+CONC_IMPL: dict[str, Callable] = {}  # name -> python implementation of an uninterpreted spec function
+
+
 class _Conc:
     """Concrete interpretation on real Python objects."""
     symbolic = False
+
+    def uf(self, name, ret, *args):
+        return CONC_IMPL[name](*args)
+
+    def forall_key(self, ty, fn, pattern=None, domain=()):
+        return all(bool(fn(k)) for k in domain)
 
     def len(self, x):
         return len(x)
